@@ -1,8 +1,9 @@
 /-
   `default_validator`: `ChainedVisitor(type_info, *visitors).visit(document)`.
-  * `enter`: `TypeInfoVisitor.enter`, then every rule in order; the first `SkipNode` aborts the chain for
-    this node: the remaining rules do not see it, the children are not visited and NO `leave` runs -
-    not even for the visitors that entered (ledger V5: the stacks of `TypeInfoVisitor` stay unbalanced).
+  * `enter` (semantics of /repo fix 391ad62): `TypeInfoVisitor.enter`, then EVERY rule in order - a `SkipNode` raised by
+    one member does not hide the node from the later members. If some member raised, the members that did enter are
+    left at once, in reverse order (`TypeInfoVisitor` last: its stacks stay balanced; the raisers' own `leave` is not
+    called), and the children are visited by nobody.
   * `leave`: rules in reverse order, `TypeInfoVisitor` last.
   The traversal is `ASTVisitor` of lang/visitor.py: a variable definition visits its default value, then
   its type (the `Variable` and directives of a definition are not entered); `_visit_type` does not
@@ -50,12 +51,20 @@ def tiLeave (n : Node) (t : TI) : TI :=
   | .objField _ => t.leaveInputValue
   | _ => t
 
-/-- the rules' part of `ChainedVisitor.enter` -/
+/-- the rules' part of `ChainedVisitor.enter`: every rule enters; the flag says whether some rule raised `SkipNode` -/
 def enterRules (c : Cfg) (n : Node) (ti : TI) : List Rule → RS → RS × Bool
   | [], rs => (rs, false)
   | r :: rest, rs =>
     let (rs, skip) := enterRule c.schema c.fixes r n ti rs
-    if skip then (rs, true) else enterRules c n ti rest rs
+    let (rs', skip') := enterRules c n ti rest rs
+    (rs', skip || skip')
+
+/-- the rules that raised `SkipNode` in `enterRules` (same threading of the rule state) -/
+def raisedRules (c : Cfg) (n : Node) (ti : TI) : List Rule → RS → List Rule
+  | [], _ => []
+  | r :: rest, rs =>
+    let (rs', skip) := enterRule c.schema c.fixes r n ti rs
+    if skip then r :: raisedRules c n ti rest rs' else raisedRules c n ti rest rs'
 
 def enter (c : Cfg) (n : Node) (st : St) : St × Bool :=
   let ti := tiEnter c.schema n st.ti
@@ -66,10 +75,18 @@ def leave (c : Cfg) (n : Node) (st : St) : St :=
   let rs := c.rules.reverse.foldl (fun rs r => leaveRule c.schema c.fixes r n st.ti rs) st.rs
   { ti := tiLeave n st.ti, rs }
 
+/-- after a `SkipNode`: `st0` is the state before `enter`, `st1` the state after it. The members that entered
+    without raising are left in reverse order, `TypeInfoVisitor` last -/
+def leaveSkipped (c : Cfg) (n : Node) (st0 st1 : St) : St :=
+  let raised := raisedRules c n st1.ti c.rules st0.rs
+  let rs := (c.rules.filter fun r => !raised.contains r).reverse.foldl
+    (fun rs r => leaveRule c.schema c.fixes r n st1.ti rs) st1.rs
+  { ti := tiLeave n st1.ti, rs }
+
 /-- `_visit_method` wrapper -/
 @[inline] def visitNode (c : Cfg) (n : Node) (body : St → St) (st : St) : St :=
-  let (st, skip) := enter c n st
-  if skip then st else leave c n (body st)
+  let (st1, skip) := enter c n st
+  if skip then leaveSkipped c n st st1 else leave c n (body st1)
 
 mutual
 def visitValue (c : Cfg) : Value → St → St
